@@ -132,6 +132,7 @@ func VHarness_C18_FromScratch() {
 type vhSyncOut struct {
 	chans  base.Set
 	access channels.AccessMap
+	roles  channels.AccessMap
 	reject bool
 }
 
@@ -153,9 +154,10 @@ func vhStubGetMetaMap(doc *Document, userXattrKey string) (map[string]any, error
 func vhStubGetChannelsAndAccess(col *DatabaseCollectionWithUser, ctx context.Context, doc *Document, body Body, metaMap map[string]any, revID string) (base.Set, channels.AccessMap, channels.AccessMap, *uint32, string, error) {
 	o := vhSyncOutputs[revID]
 	if o.reject {
-		return nil, nil, nil, nil, "", base.HTTPErrorf(403, "rejected by sync function")
+		// as the real function: what the sync function computed before rejecting comes back together with the rejection
+		return o.chans, o.access, o.roles, nil, "", base.HTTPErrorf(403, "rejected by sync function")
 	}
-	return o.chans, o.access, nil, nil, "", nil
+	return o.chans, o.access, o.roles, nil, "", nil
 }
 
 // VHarness_C18_ResyncDoc: getResyncedDocument on a document with a winning and a conflicting leaf.
@@ -177,17 +179,41 @@ func VHarness_C18_ResyncDoc() {
 	for i, p := range vhPrincipals {
 		_, oldGrant[i] = doc.Access[p]["A"]
 	}
-	win := vhSyncOut{chans: vhNondetSet(), access: channels.AccessMap{}}
+	oldRole := false
+	if vNondetBool() {
+		oldRole = true
+		doc.RoleAccess = UserAccessMap{vhPrincipals[0]: channels.TimedSet{"r1": channels.NewVbSimpleSequence(1)}}
+	}
+	win := vhSyncOut{chans: vhNondetSet(), access: channels.AccessMap{}, roles: channels.AccessMap{}}
 	var newGrant [2]bool
 	if vNondetBool() {
 		newGrant[0] = true
 		win.access[vhPrincipals[0]] = base.Set{"A": struct{}{}}
 	}
-	lose := vhSyncOut{chans: vhNondetSet()}
-	vhSyncOutputs = map[string]vhSyncOut{"2-b": win, "2-a": lose}
+	newRole := false
+	if vNondetBool() {
+		newRole = true
+		win.roles[vhPrincipals[0]] = base.Set{"r1": struct{}{}}
+	}
+	win.reject = vNondetBool()
+	lose := vhSyncOut{chans: vhNondetSet(), reject: vNondetBool()}
+	// what a database that had used the new function from the start would hold: a rejected revision is in no
+	// channel and grants nothing
+	if win.reject {
+		vCover("resync-rejected")
+		win2 := win
+		win2.chans, newGrant, newRole = base.Set{}, [2]bool{}, false
+		vhSyncOutputs = map[string]vhSyncOut{"2-b": win, "2-a": lose}
+		win = win2
+	} else {
+		vhSyncOutputs = map[string]vhSyncOut{"2-b": win, "2-a": lose}
+	}
+	if lose.reject {
+		lose.chans = base.Set{}
+	}
 	col := &DatabaseCollectionWithUser{DatabaseCollection: &DatabaseCollection{dbCtx: &DatabaseContext{}, ScopeName: base.DefaultScope, Name: base.DefaultCollection}}
 
-	vMapOrder(3)
+	vMapOrder(vParam("maporder", 1))
 	updated, _, err := col.getResyncedDocument(ctx, doc, false)
 	vMapOrder(0)
 
@@ -202,6 +228,9 @@ func VHarness_C18_ResyncDoc() {
 			winnerDiffers = true
 		}
 	}
+	if oldRole != newRole {
+		winnerDiffers = true
+	}
 	loserDiffers := false
 	for i, c := range vhC18Chans {
 		if oldLoserIn[i] != lose.chans.Contains(c) {
@@ -215,6 +244,12 @@ func VHarness_C18_ResyncDoc() {
 			vAssert(vhCurrentChannels(doc)[i] == win.chans.Contains(c), "winning revision: channels are the new function's output")
 			vAssert(doc.History["2-a"].Channels.Contains(c) == lose.chans.Contains(c), "conflicting leaf: channels are the new function's output")
 		}
+		for i, p := range vhPrincipals {
+			_, g := doc.Access[p]["A"]
+			vAssert(g == newGrant[i], "winning revision: channel grants are those of a from-scratch evaluation")
+		}
+		_, r := doc.RoleAccess[vhPrincipals[0]]["r1"]
+		vAssert(r == newRole, "winning revision: role grants are those of a from-scratch evaluation (a rejected revision grants nothing)")
 	} else {
 		vCover("resync-cancelled")
 		vAssert(err == base.ErrUpdateCancel, "the only error is 'nothing to update'")
